@@ -16,9 +16,10 @@ import (
 // ---------- program space: base programs and their single-edit mutants ----------
 
 type baseProg struct {
-	Name string
-	P    *ref.Program
-	Text string
+	Name      string
+	P         *ref.Program
+	Text      string
+	NoMutants bool // generated programs: used unmutated in the quick tier
 }
 
 var baseCache []baseProg
@@ -41,7 +42,7 @@ func basePrograms(c *harness.Ctx) []baseProg {
 		if err != nil {
 			continue
 		}
-		baseCache = append(baseCache, baseProg{p.Name, rp, p.Text})
+		baseCache = append(baseCache, baseProg{Name: p.Name, P: rp, Text: p.Text})
 	}
 	for _, f := range extraBases {
 		baseCache = append(baseCache, f(c)...)
@@ -50,6 +51,29 @@ func basePrograms(c *harness.Ctx) []baseProg {
 }
 
 const mutChunk = 250
+
+// mutateGenerated selects the generated programs whose single-edit neighbourhood is enumerated too:
+// every program whose function has two parameters and a binder (that is where shadowing can occur).
+var mutateAllGenerated bool
+
+func mutateGenerated(b baseProg) bool {
+	if mutateAllGenerated {
+		return true
+	}
+	for _, f := range b.P.Funcs {
+		if f.Name == "f" && len(f.Params) == 2 {
+			// every 12th derivation of a two-parameter sequent
+			i := strings.LastIndex(b.Name, "#")
+			j := strings.LastIndex(b.Name, ".")
+			if i > 0 && j > i {
+				n := 0
+				fmt.Sscanf(b.Name[i+1:j], "%d", &n)
+				return n%12 == 5 && strings.HasSuffix(b.Name, "00")
+			}
+		}
+	}
+	return false
+}
 
 type mutSpace struct {
 	bases  []baseProg
@@ -64,9 +88,13 @@ func getMutSpace(c *harness.Ctx) *mutSpace {
 	if mutSpaceCache != nil {
 		return mutSpaceCache
 	}
+	mutateAllGenerated = c.Thorough()
 	ms := &mutSpace{bases: basePrograms(c)}
 	for _, b := range ms.bases {
-		n := len(gen.Mutants(b.P))
+		n := 0
+		if !b.NoMutants || mutateGenerated(b) {
+			n = len(gen.Mutants(b.P))
+		}
 		ms.counts = append(ms.counts, n)
 		ms.starts = append(ms.starts, ms.total)
 		ms.total += 1 + (n+mutChunk-1)/mutChunk
@@ -111,6 +139,36 @@ func gritsErrClass(e string) string {
 	return NormMsg(e)
 }
 
+// acceptsWithoutAnnBeforeShift: the reference accepts the program once every head annotation that
+// directly precedes a shift is removed (root cause F15).
+func acceptsWithoutAnnBeforeShift(p *ref.Program) bool {
+	q := p.Copy()
+	changed := false
+	fix := func(a *ref.AnnTy) {
+		if a != nil && (a.T.K == ref.KUp || a.T.K == ref.KDown) && (a.Ann != ref.MUnset || a.AnnStr != "") {
+			a.Ann, a.AnnStr = ref.MUnset, ""
+			changed = true
+		}
+	}
+	for i := range q.Env.Defs {
+		fix(&q.Env.Defs[i].Body)
+	}
+	for i := range q.Funcs {
+		fix(q.Funcs[i].Result)
+		for j := range q.Funcs[i].Params {
+			fix(q.Funcs[i].Params[j].Ty)
+		}
+	}
+	for i := range q.Procs {
+		fix(q.Procs[i].Ty)
+	}
+	if !changed {
+		return false
+	}
+	v, _ := ref.CheckProgram(q, false)
+	return v.Kind == "accept"
+}
+
 var substructural = map[string]bool{"linearity": true, "weakening": true, "contraction": true, "scope": true}
 
 func progDesc(base baseProg, m gen.Mutation) string { return base.Name + " / " + m.Desc }
@@ -153,7 +211,9 @@ func init() {
 					if idx%5 == 0 && m.Desc != "original" && len(text) < 400 {
 						r.Sample(map[string]interface{}{"program": progDesc(base, m), "grits": ga, "reference": v.Kind + " " + v.Reason})
 					}
-					if ga && !ra && only(v) {
+					if ga && !ra && v.Reason == "ill-formed-type" && acceptsWithoutAnnBeforeShift(m.P) {
+						viol(r, "annotation-before-shift-ignored", fmt.Sprintf("%s: accepted although a head annotation contradicts (or is not a mode and precedes) a shift (%s)", progDesc(base, m), v.Detail), text, nil)
+					} else if ga && !ra && only(v) {
 						viol(r, "false accept: "+v.Reason, fmt.Sprintf("%s: accepted, but the reference system rejects it (%s: %s)", progDesc(base, m), v.Reason, v.Detail), text, nil)
 					} else if !ga && ra && id == "C07" {
 						viol(r, "false reject: "+gritsErrClass(g.TypeErr), fmt.Sprintf("%s: rejected (%s), but derivable in the reference system", progDesc(base, m), g.TypeErr), text, nil)
